@@ -3,9 +3,11 @@ and the projection grammar (dict and list forms, `_id` toggling, nested dotted p
 counts and pairs, `$elemMatch` conditions, and a malformed stream); a second flavour draws
 documents whose arrays carry datetimes and projections whose conditions look at them."""
 import copy
+import datetime
 
 import gen
 import gen_filter
+from wire import FixedOffset
 
 SUBFIELDS = ['a', 'b', 'c', 'd']
 
@@ -385,6 +387,34 @@ class ProjGen(object):
                 proj.update(plain)
         self.id_flag(proj)
         return proj
+
+    def respell(self, v):
+        """the same projection with every datetime written another way: the same instant seen
+        from another offset (tz-aware), with a sub-millisecond part the store drops, or both.
+        Returns None when v holds no datetime."""
+        r = self.r
+        hit = []
+
+        def go(x):
+            if isinstance(x, dict):
+                return {k: go(y) for k, y in x.items()}
+            if isinstance(x, list):
+                return [go(y) for y in x]
+            if isinstance(x, datetime.datetime) and x.tzinfo is None:
+                hit.append(1)
+                how = r.choice(['aware', 'aware', 'offset', 'offset', 'submilli', 'both'])
+                self.note('respell:' + how)
+                if how in ('submilli', 'both'):
+                    x = x + datetime.timedelta(microseconds=r.choice([1, 250, 999]))
+                if how == 'aware':
+                    x = x.replace(tzinfo=FixedOffset(0))
+                elif how in ('offset', 'both'):
+                    m = r.choice([-330, -60, 60, 120, 345])
+                    x = (x + datetime.timedelta(minutes=m)).replace(tzinfo=FixedOffset(m))
+                return x
+            return copy.deepcopy(x)
+        out = go(v)
+        return out if hit else None
 
     def agg_projection(self, doc):
         """plain inclusion / exclusion specifications for `$project` (flags only)"""
